@@ -103,7 +103,29 @@ func (e *Exec) invokeIntrinsic(s *State, f *Frame, x *ssa.Call, recv Val, method
 			}
 			switch a0 := args[0].(type) {
 			case GetResult:
-				e.store(s, p, e.unmarshalGet(s, a0, want))
+				v, ok := e.tryUnmarshalGet(s, a0, want)
+				if !ok {
+					// the aliasing candidates cannot be merged into one value (e.g. slices of different shape): decide the
+					// newest candidate's key equality by forking and retry with the narrowed candidate list
+					if len(a0.Ents) < 2 {
+						panic("unmarshal: candidates cannot be merged")
+					}
+					op := x.Call.Args[0]
+					if _, isReg := f.Regs[op]; !isReg {
+						panic("unmarshal: store read result not in a register")
+					}
+					e.stats["alias-forks"]++
+					return e.fork(s, a0.Conds[0], func(t *State) {
+						tf := top(t)
+						tf.Regs[op] = GetResult{Conds: []string{"true"}, Ents: []StoreEntry{a0.Ents[0]}}
+						tf.Idx--
+					}, func(t *State) {
+						tf := top(t)
+						tf.Regs[op] = GetResult{Conds: a0.Conds[1:], Ents: a0.Ents[1:]}
+						tf.Idx--
+					}), false, true
+				}
+				e.store(s, p, v)
 				setErr()
 				return nil, false, true
 			case MarshaledV:
@@ -838,4 +860,18 @@ func (e *Exec) checkStoreName(s *State, name string) {
 		}
 	}
 	panic("unknown store name " + name + " (stores are named after the module directory x/<name>)")
+}
+
+func (e *Exec) tryUnmarshalGet(s *State, g GetResult, want types.Type) (v Val, ok bool) {
+	defer func() {
+		if r := recover(); r != nil {
+			msg := fmt.Sprint(r)
+			if strings.Contains(msg, "iteVal") {
+				v, ok = nil, false
+				return
+			}
+			panic(r)
+		}
+	}()
+	return e.unmarshalGet(s, g, want), true
 }
